@@ -312,6 +312,13 @@ pub fn plans(prop: &str, tier: &str) -> Vec<Plan> {
                 Plan { cfg: e, depth: d(3, 5) },
             ]
         }
+        "C11" => {
+            let mut o = sc_order(prop);
+            o.check.c11 = true;
+            // timestamps pinned per template are not used: the (id, template) table gives ties (#2,#3)
+            // and a later #1; an amended / replenished / re-queued order keeps its timestamp
+            vec![Plan { cfg: o, depth: d(4, 6) }]
+        }
         "C15" => {
             // positive quantities only
             let ts = [
